@@ -87,6 +87,20 @@ def run(repo: Repo, chk: Check):
     chkfn = cp.func("CompilerPassHandleConstexpr.check_constexpr_function")
     chk.saw("compile_pass", chkfn.qual)
     searches = [c for c in ast.walk(chkfn) if isinstance(c, ast.Call) and norm(c.func) in ("re.search", "re.match", "re.fullmatch", "re.findall", "re.compile")]
+    if not searches:
+        # <compiled pattern>.search(text) with the pattern compiled at module level: rewritten to re.search(pattern, text)
+        for c in ast.walk(chkfn):
+            if isinstance(c, ast.Call) and isinstance(c.func, ast.Attribute) and c.func.attr in ("search", "match", "fullmatch", "findall") and isinstance(c.func.value, ast.Name):
+                got = repo.lookup(cp, c.func.value.id)
+                if got and isinstance(got[1], (ast.Assign, ast.AnnAssign)) and isinstance(got[1].value, ast.Call) and norm(got[1].value.func) == "re.compile" \
+                        and got[1].value.args and len(got[1].value.args) == 1 and not got[1].value.keywords:
+                    eq = ast.Call(func=ast.Attribute(value=ast.Name(id="re", ctx=ast.Load()), attr=c.func.attr, ctx=ast.Load()),
+                                  args=[got[1].value.args[0]] + list(c.args), keywords=list(c.keywords))
+                    ast.copy_location(eq, c)
+                    ast.fix_missing_locations(eq)
+                    eq.parent = getattr(c, "parent", None)
+                    eq._original = c
+                    searches.append(eq)
     if len(searches) == 0:
         chk.bad("R12.a", "compile_pass:check_constexpr_function:pattern covers open/eval/exec as whole words",
                 "the function source is no longer searched as text for the words open, eval and exec: a check on selected syntax nodes misses other "
@@ -116,7 +130,7 @@ def run(repo: Repo, chk: Check):
         par = sc
         while par is not None and not isinstance(par, ast.If):
             par = getattr(par, "parent", None)
-        raises = par is not None and any(isinstance(x, ast.Raise) and "CompilerError" in norm(x) for x in par.body) and any(sc is x for x in ast.walk(par.test)) \
+        raises = par is not None and any(isinstance(x, ast.Raise) and "CompilerError" in norm(x) for x in par.body) and any(sc is x or getattr(sc, "_original", None) is x for x in ast.walk(par.test)) \
             and not isinstance(par.test, ast.UnaryOp)
         chk.judge("R12.a", "compile_pass:check_constexpr_function:a match raises CompilerError", raises, "a match does not raise CompilerError", None, where)
     hd = cp.func("CompilerPassHandleConstexpr.handle_decorators")
@@ -149,7 +163,20 @@ def run(repo: Repo, chk: Check):
                   f"{cp.path}:{sN.ast.lineno}")
         # decorator names handled
         g = [(norm(t), p) for t, p in cfg.guards(sN.id) if isinstance(t, ast.expr)]
-        okn = any(p and "constexpr" in t and " in " in t for t, p in g)
+        from ..modconst import module_constants
+        consts = module_constants(cp)
+        okn = False
+        for t_, p_ in cfg.guards(sN.id):
+            if isinstance(t_, ast.Compare) and len(t_.ops) == 1 and isinstance(t_.ops[0], (ast.In, ast.NotIn)):
+                member = isinstance(t_.ops[0], ast.In) == bool(p_)
+                coll = t_.comparators[0]
+                vals = None
+                if isinstance(coll, (ast.List, ast.Tuple, ast.Set)) and all(isinstance(x, ast.Constant) for x in coll.elts):
+                    vals = {x.value for x in coll.elts}
+                elif isinstance(coll, ast.Name) and coll.id in consts and isinstance(consts[coll.id], (tuple, list, set, frozenset)):
+                    vals = set(consts[coll.id])
+                if member and vals is not None and "constexpr" in vals:
+                    okn = True
         chk.judge("R12.a", "compile_pass:handle_decorators:applies to constexpr/emit_code decorators", okn, f"guards {g}", None, f"{cp.path}:{sN.ast.lineno}")
     # ---------------------------------------------------------------- R12.b gather loop and call replacement
     g = repo.mod("generate_code")
@@ -201,13 +228,21 @@ def run(repo: Repo, chk: Check):
             tmpl = st.value
     if tmpl is None:
         raise AnalysisError("eval_constexpr: script template not found")
+    def hole_text(e, at_stmt):
+        """Text of a template hole; a local bound once to an expression is replaced by that expression."""
+        if isinstance(e, ast.Name):
+            ids_ = [x.id for x in ecfg.nodes_of(at_stmt)]
+            ds_ = erd.at(ids_[0], e.id) if ids_ else []
+            if len(ds_) == 1 and ds_[0].kind == "assign" and ds_[0].value is not None and not ds_[0].index:
+                return norm(ds_[0].value)
+        return norm(e)
     holes = []
     text = ""
     for v in tmpl.values:
         if isinstance(v, ast.Constant):
             text += v.value
         else:
-            holes.append(norm(v.value))
+            holes.append(hole_text(v.value, tmpl))
             text += f"__HOLE{len(holes) - 1}__"
     try:
         script = ast.parse(text)
@@ -261,7 +296,7 @@ def run(repo: Repo, chk: Check):
     prints = [st for st in ast.walk(ev) if isinstance(st, ast.AugAssign) and norm(st.target) == "code" and isinstance(st.value, ast.JoinedStr)]
     okp = False
     for p in prints:
-        t = "".join(v.value if isinstance(v, ast.Constant) else "<" + norm(v.value) + ">" for v in p.value.values)
+        t = "".join(v.value if isinstance(v, ast.Constant) else "<" + hole_text(v.value, p) + ">" for v in p.value.values)
         okp = okp or ("print(__json.dumps(<call_node.as_string()>))" in t.replace(" ", ""))
     chk.judge("R12.c", "utils:eval_constexpr:subprocess transport prints json of the same call", okp, "no 'print(__json.dumps(<call>))' appended for the subprocess transport", None, wu)
     loads = [c for c in ast.walk(ev) if isinstance(c, ast.Call) and norm(c.func) == "json.loads"]
